@@ -14,6 +14,7 @@ import (
 	"strings"
 	"sync"
 	"sync/atomic"
+	"testing/iotest"
 	"time"
 
 	"github.com/tigerwill90/fox"
@@ -414,6 +415,20 @@ func tlaTuples(ts [][]int) string {
 	return "{" + strings.Join(parts, ", ") + "}"
 }
 
+// chunkThenFail delivers its bytes and its error in the same Read call.
+type chunkThenFail struct {
+	data string
+	done bool
+}
+
+func (c *chunkThenFail) Read(p []byte) (int, error) {
+	if c.done {
+		return 0, errSentinel
+	}
+	c.done = true
+	return copy(p, c.data), errSentinel
+}
+
 func checkC14(r *Run) {
 	runHelperBodies(r)
 	maxCalls := pick(r, 3, 6)
@@ -495,15 +510,37 @@ GenRedirectCodes == {100, 101, 199, 201, 202, 204, 206, 226, 298, 310, 399, 400,
 			}
 			return s
 		}
+		// Every edge is replayed after a shortest history into its source state - and also after every call into that
+		// state that, by the model, changes nothing there (a capability the underlying writer lacks, an empty write, a
+		// superfluous header): what follows such a call behaves as if it had not been made.
+		noops := map[string][]*wedge{}
+		sameSt := func(a, b wState) bool {
+			x, _ := json.Marshal(a)
+			y, _ := json.Marshal(b)
+			return string(x) == string(y)
+		}
+		for _, e := range edges {
+			if sameSt(nodes[e.from].st.St, nodes[e.to].st.St) {
+				noops[e.to] = append(noops[e.to], e)
+			}
+		}
 		parallel(len(edges), func(i int) {
 			e := edges[i]
-			p := pathTo(e.from)
-			problem, want, got := runWriterScript(v, p, e, nodes, &total)
-			totalEdges.Add(1)
-			if problem != "" {
-				calls := describe(p, e)
-				r.violation(fmt.Sprintf("writer underlying=%s calls=%s", v.name, strings.Join(calls, " ")), map[string]any{"kind": "behaviour", "underlying": v.name,
-					"calls": calls, "problem": problem, "prescribed": want, "obtained": got})
+			histories := [][]*wedge{pathTo(e.from)}
+			for _, q := range noops[e.from] {
+				if q != nodes[e.from].parent && len(histories) < pick(r, 1000, 6) {
+					histories = append(histories, append(pathTo(q.from), q))
+				}
+			}
+			for _, p := range histories {
+				problem, want, got := runWriterScript(v, p, e, nodes, &total)
+				totalEdges.Add(1)
+				if problem != "" {
+					calls := describe(p, e)
+					r.violation(fmt.Sprintf("writer underlying=%s calls=%s", v.name, strings.Join(calls, " ")), map[string]any{"kind": "behaviour", "underlying": v.name,
+						"calls": calls, "problem": problem, "prescribed": want, "obtained": got})
+					break
+				}
 			}
 		})
 		if len(edges) > 0 {
@@ -540,6 +577,23 @@ func runHelperBodies(r *Run) {
 		{"Blob", func(c fox.Context) error { return c.Blob(202, "application/x-test", blob) }, string(blob), "application/x-test"},
 		{"Stream", func(c fox.Context) error { return c.Stream(203, "application/x-test", strings.NewReader("a%sb%%c")) }, "a%sb%%c", "application/x-test"},
 		{"Blob, empty", func(c fox.Context) error { return c.Blob(204, "application/x-test", nil) }, "", "application/x-test"},
+		// readers as the io.Reader contract allows them: the last bytes delivered together with io.EOF, one byte at a time,
+		// nothing and no error now and then, bytes delivered together with a failure (they were read: they are sent)
+		{"Stream, last bytes with EOF", func(c fox.Context) error {
+			return c.Stream(200, "application/x-test", iotest.DataErrReader(strings.NewReader("abcdefgh")))
+		}, "abcdefgh", "application/x-test"},
+		{"Stream, one byte at a time", func(c fox.Context) error {
+			return c.Stream(200, "application/x-test", iotest.OneByteReader(strings.NewReader("abcdefgh")))
+		}, "abcdefgh", "application/x-test"},
+		{"Stream, one byte at a time and the last with EOF", func(c fox.Context) error {
+			return c.Stream(200, "application/x-test", iotest.DataErrReader(iotest.OneByteReader(strings.NewReader("abc"))))
+		}, "abc", "application/x-test"},
+		{"Stream, bytes together with a failure", func(c fox.Context) error {
+			if err := c.Stream(200, "application/x-test", &chunkThenFail{data: "abcde"}); !errors.Is(err, errSentinel) {
+				return fmt.Errorf("the reader's error was not returned: %v", err)
+			}
+			return nil
+		}, "abcde", "application/x-test"},
 	}
 	for _, hc := range cases {
 		detail := func() map[string]any { return map[string]any{"family": "helper-bodies", "helper": hc.name} }
@@ -549,16 +603,17 @@ func runHelperBodies(r *Run) {
 				failTool("fox.New: %v", err)
 			}
 			var herr error
-			rt.MustHandle("GET", "/h", func(c fox.Context) { herr = hc.call(c) })
+			size := -1
+			rt.MustHandle("GET", "/h", func(c fox.Context) { herr = hc.call(c); size = c.Writer().Size() })
 			req, _ := newRequest("GET", "", "/h", "")
 			w := newPlainWriter()
 			rt.ServeHTTP(w, req)
 			r.addCov("helper_bodies_compared", 1)
 			mt, _, _ := mime.ParseMediaType(w.h.Get("Content-Type"))
-			if herr != nil || string(w.body) != hc.want || mt != hc.ct {
+			if herr != nil || string(w.body) != hc.want || mt != hc.ct || size != len(hc.want) {
 				d := detail()
 				d["prescribed"] = map[string]any{"body": hc.want, "content_type": hc.ct}
-				d["obtained"] = map[string]any{"body": string(w.body), "content_type": w.h.Get("Content-Type"), "error": fmt.Sprint(herr)}
+				d["obtained"] = map[string]any{"body": string(w.body), "content_type": w.h.Get("Content-Type"), "error": fmt.Sprint(herr), "Size()": size}
 				r.violation(fmt.Sprintf("writer helper=%s sends other bytes than it was given", hc.name), d)
 			}
 		})
